@@ -149,7 +149,7 @@ var attrURL = map[string]string{
 	"FEE":   "/noble.orbiter.controller.action.v2.FeeAttributes",
 	"UNREG": "/noble.orbiter.controller.forwarding.v1.DoesNotExist",
 	"BANK":  "/cosmos.bank.v1beta1.MsgSend",
-	"TEST":  "/testdata.TestActionAttr",
+	"TEST":  "/testpb.TestActionAttr",
 }
 
 func jstr(s string) string {
